@@ -653,11 +653,16 @@ def check_fill(prop: str, res: Result, repo: Repo):
         return t
 
     kws = {k: _res(v) for k, v in kwn.items()}
-    want = {"open": f"{P}.close", "close": f"{P}.close", "high": f"{P}.close", "low": f"{P}.close", "volume": "0", "timestamp": f"{P}.timestamp + {tfp}"}
+    # the previous candle may already be converted (Heikin-Ashi) when the list is re-collapsed after an append, while in a batch pass
+    # it is still raw (conversion runs after collapse): the flat price is the previous candle's RAW close on every schedule
+    raw_close = (f"{P}.clean_values.get('close', {P}.close)", f"{P}.clean_values['close'] if {P}.clean_values else {P}.close", f"{P}.raw_copy().close")
+    want = {"open": raw_close[0], "close": raw_close[0], "high": raw_close[0], "low": raw_close[0], "volume": "0", "timestamp": f"{P}.timestamp + {tfp}"}
     for k, v in want.items():
         got = kws.get(k)
-        if got is not None and (got == v or (k == "timestamp" and got == f"{tfp} + {P}.timestamp") or (k == "volume" and got in ("0", "0.0"))):
+        if got is not None and (got == v or (k in ("open", "close", "high", "low") and got in raw_close) or (k == "timestamp" and got == f"{tfp} + {P}.timestamp") or (k == "volume" and got in ("0", "0.0"))):
             res.ok(rule, {"site": fm.where, "fill candle": f"{k} = {got}"}, nontrivial=f"fill:{k}")
+        elif k in ("open", "close", "high", "low") and got == f"{P}.close":
+            res.fail(rule, finding(prop, rule, fm, ctor[0], f"the inserted candle takes {k} from {P}.close, which is the converted (e.g. Heikin-Ashi) close when the list is re-collapsed after an append and the raw close in a batch pass: with a candlestick type and timeframe_fill the fill candles depend on the append schedule; use the raw close ({raw_close[0]})", construct=f"fill candle {k}={got}"))
         else:
             res.fail(rule, finding(prop, rule, fm, ctor[0], f"the inserted candle must have {k} = {v} (flat at the previous close, zero volume, one timeframe after the previous candle); found {got}", construct=f"fill candle {k}={got}"))
     if (ast.unparse(ins[0].args[1]) in alias and alias[ast.unparse(ins[0].args[1])] == {ast.unparse(ctor[0])}) or ins[0].args[1] is ctor[0]:
